@@ -7,7 +7,9 @@ listed in the evidence."""
 SHIMS = {
     # define_charset(): lazy_static MAPS table and string compares called out
     'maps-has': dict(pattern=r'MAPS\.keys\(\)\.any\(\|&a\| a == code\)', replace=r'maps_has(code)', spec='r == maps_lookup(code@).is_some()'),
-    'maps-get': dict(pattern=r'MAPS\s*\.get\(code\)\s*\.expect\(&format!\("[^"]*", code\)\)\s*\.clone\(\)', replace=r'maps_get(code)', spec='requires the key to exist (keeps the expect as an obligation); r == maps_lookup(code@).unwrap()'),
+    'maps-get-opt': dict(pattern=r'MAPS\s*\.get\(code\)', replace=r'maps_get_opt(code)', spec='r == maps_lookup(code@) (as Option<&table>)'),
+    'expect-format': dict(pattern=r'\.expect\(&format!\("[^"]*", code\)\)', replace=r'.expect("")', spec='the panic message is irrelevant; Option::expect keeps its is_some() precondition'),
+    'lat1-ref': dict(pattern=r'&LAT1_MAP\b', replace=r'lat1_ref()', spec='*r == lat1_map()'),
     'mode-eq': dict(pattern=r'\bmode == ("[^"]*")', replace=r'strs_eq(mode, \1)', spec='r == (a@ == b@)'),
     # ---- unit F: the recogniser closure (all patterns are matched on comment/string-masked text) ----
     'f-yield-decaln': dict(pattern=r'co\.yield_\(None\)\.unwrap_or_default\(\) == DECALN', replace=r'str_eq(&co_next(&mut co, None, &listener, &parser_state_cloned), DECALN)', spec='co_next + str_eq'),
@@ -41,9 +43,9 @@ SHIMS = {
     'bytes-map-close': dict(pattern=r'\)\.collect::<String>\(\)(?=\s*\})', replace=r')', spec='(closing half)'),
     'char-to-string': dict(pattern=r'\bc\.to_string\(\)', replace=r'char_to_string(c)', spec='r@ == [c] (vstd specifies ToString::to_string generically, without content)'),
     # Parser::feed: the three things it does with a character, called out to assumed deterministic steps
-    'is-special-start': dict(pattern=r'Self::is_special_start\(&char_str\)', replace=r'Self::shim_is_special_start(&char_str)', spec='r == is_special(c) (uninterpreted)'),
-    'listener-draw': dict(pattern=r'self\.listener\.lock\(\)\.unwrap\(\)\.draw\(&char_str\);', replace=r'self.shim_listener_draw(&char_str);', spec="world' == w_draw(world, c)"),
-    'fsm-send': dict(pattern=r'self\.parser_fsm\.send\(char_str\)\.unwrap_or\(false\)', replace=r'self.shim_fsm_send(char_str)', spec="(world', r) == w_send(world, c)"),
+    'is-special-start': dict(pattern=r'Self::is_special_start\(&(\w+)\)', replace=r'Self::shim_is_special_start(&\1)', spec='r == is_special(c) (uninterpreted)'),
+    'listener-draw': dict(pattern=r'self\.listener\.lock\(\)\.unwrap\(\)\.draw\(&(\w+)\);', replace=r'self.shim_listener_draw(&\1);', spec="world' == w_draw(world, c)"),
+    'fsm-send': dict(pattern=r'self\.parser_fsm\.send\((\w+)\)\.unwrap_or\(false\)', replace=r'self.shim_fsm_send(\1)', spec="(world', r) == w_send(world, c)"),
     # draw(): data.chars().map(CLOSURE).collect::<String>()  -> str_map_collect(data, CLOSURE); closure stays in verified text
     'str-map-open': dict(pattern=r'\bdata\s*\.chars\(\)\s*\.map\((?=\|c\|)', replace=r'str_map_collect(data, ', spec='elementwise map over the characters, see str_map_collect'),
     'str-map-close': dict(pattern=r'\)\s*\.collect::<String>\(\)(?=;)', replace=r')', spec='(closing half of str-map)'),
